@@ -363,31 +363,33 @@ pub fn lang_matches(tag: &Arc<str>, range: &Arc<str>) -> Option<EvalResult> {
     )
 }
 
+/// XPath `fn:substring`: the characters whose 1-based position `p` satisfies
+/// `fn:round(start) <= p < fn:round(start) + fn:round(length)`
+/// (`fn:round(start) <= p` without a length).
+/// Positions count characters, not bytes;
+/// comparisons involving NaN are false, so NaN (and -INF + INF) select nothing.
 pub fn sub_str(
     source: StringLiteral,
     starting_loc: f64,
     length: Option<f64>,
 ) -> Option<EvalResult> {
-    if starting_loc.is_nan() {
-        return None;
-    }
+    use crate::value::xpath_round;
     let (lex, tag) = source;
-    let (s, e) = match length {
-        Some(l) if l.is_nan() => return None,
-        None | Some(f64::INFINITY) => (
-            ((starting_loc.round() - 1.0) as usize).min(lex.len()),
-            lex.len(),
-        ),
-        Some(l) => {
-            let s_signed = starting_loc.round() as isize - 1;
-            let s = (s_signed.max(0) as usize).min(lex.len());
-            let e = ((s_signed + l.round() as isize).max(0) as usize)
-                .max(s)
-                .min(lex.len());
-            (s, e)
-        }
+    let start = xpath_round(starting_loc);
+    let end = match length {
+        Some(l) => start + xpath_round(l),
+        None => f64::INFINITY,
     };
-    Some(EvalResult::from((Arc::from(&lex[s..e]), tag.cloned())))
+    let selected: String = lex
+        .chars()
+        .enumerate()
+        .filter(|(i, _)| {
+            let p = (i + 1) as f64;
+            start <= p && p < end
+        })
+        .map(|(_, c)| c)
+        .collect();
+    Some(EvalResult::from((Arc::from(selected), tag.cloned())))
 }
 
 pub fn str_len(string: &Arc<str>) -> EvalResult {
